@@ -436,6 +436,291 @@ def gen_ops(ck, f):
     return ops
 
 
+
+# ------------------------------------------------------------------ membership edits through the public API
+class EditState(object):
+    """two documents plus detached layers/groups; every layer has a unique id carried in its name ("n<id>").
+    An operation is a JSON-able descriptor referring to ids; containers: -1 / -2 = the documents, otherwise a group id."""
+
+    def __init__(self, init):
+        fa, fb, ma, mb = init
+        self.docs = [build_api(unj(fa), True), build_api(unj(fb), True)]
+        self.docs[0].compatibility_mode = _mode(ma)
+        self.docs[1].compatibility_mode = _mode(mb)
+        self.reg = {}
+        for d in self.docs:
+            for l in all_layers(d):
+                self.reg[lid(l)] = l
+
+    # -- bookkeeping (by scanning, never by trusting the library's parent pointers)
+    def cont(self, cid):
+        return self.docs[-cid - 1] if cid < 0 else self.reg[cid]
+
+    def cid_of(self, c):
+        for i, d in enumerate(self.docs):
+            if c is d:
+                return -i - 1
+        return lid(c)
+
+    def containers(self):
+        return list(self.docs) + [l for l in self.reg.values() if l.is_group()]
+
+    def parent_map(self):
+        pm = {}
+        for c in self.containers():
+            for x in c._layers:
+                pm.setdefault(id(x), []).append(c)
+        return pm
+
+    def roots(self):
+        pm = self.parent_map()
+        return [l for l in self.reg.values() if id(l) not in pm]
+
+    def in_doc(self, l):
+        return any(x is l for d in self.docs for x in all_layers(d))
+
+    def inside(self, c, x):
+        """container c is x itself or lies inside x"""
+        return c is x or (x.is_group() and any(c is y for y in all_layers(x)))
+
+    # -- execution
+    def execute(self, op):
+        from PIL import Image
+        from psd_tools.api.layers import Group, PixelLayer
+        from psd_tools.constants import BlendMode
+
+        k = op[0]
+        L = lambda i: self.reg[i]
+        if k == "new_layer":
+            _, i, doc, clip = op
+            if "im" not in _IM:
+                _IM["im"] = Image.new("RGB", (4, 4), (200, 10, 10))
+            l = PixelLayer.frompil(_IM["im"], self.docs[doc], "n%d" % i)
+            self.reg[i] = l
+            l.clipping_layer = bool(clip)
+        elif k == "new_group":
+            _, i, pcid, st, clip = op
+            g = Group.new("n%d" % i, open_folder=bool(i % 2), parent=None if pcid is None else self.cont(pcid))
+            self.reg[i] = g
+            g.blend_mode = BlendMode.PASS_THROUGH if st == 2 else BlendMode.NORMAL
+            g.clipping_layer = bool(clip)  # the setter recomputes when the group is in a document
+        elif k == "append":
+            self.cont(op[1]).append(L(op[2]))
+        elif k == "extend":
+            self.cont(op[1]).extend([L(i) for i in op[2]])
+        elif k == "insert":
+            self.cont(op[1]).insert(op[2], L(op[3]))
+        elif k == "setitem":
+            self.cont(op[1])[op[2]] = L(op[3])
+        elif k == "setslice":
+            self.cont(op[1])[op[2]:op[3]] = [L(i) for i in op[4]]
+        elif k == "remove":
+            self.cont(op[1]).remove(L(op[2]))
+        elif k == "pop":
+            self.cont(op[1]).pop(op[2])
+        elif k == "clear":
+            self.cont(op[1]).clear()
+        elif k == "delitem":
+            del self.cont(op[1])[op[2]]
+        elif k == "delslice":
+            del self.cont(op[1])[op[2]:op[3]]
+        elif k == "move_to_group":
+            L(op[1]).move_to_group(self.cont(op[2]))
+        elif k == "delete_layer":
+            L(op[1]).delete_layer()
+        elif k == "move_up":
+            L(op[1]).move_up(op[2])
+        elif k == "move_down":
+            L(op[1]).move_down(op[2])
+        elif k == "group_layers":
+            _, i, xs, pcid = op
+            g = Group.group_layers([L(x) for x in xs], name="n%d" % i, parent=None if pcid is None else self.cont(pcid))
+            self.reg[i] = g
+        elif k == "set_clip":
+            L(op[1]).clipping_layer = bool(op[2])
+        elif k == "set_mode":
+            self.docs[op[1]].compatibility_mode = _mode(op[2])
+        else:
+            raise RuntimeError("unknown op %r" % (op,))
+
+
+def forest_of(group):
+    """the numbered forest of a real document, read off the records (not through the blend_mode property)"""
+    from psd_tools.constants import BlendMode, Clipping, Tag
+
+    out = []
+    for l in group._layers:
+        r = l._record
+        clip = int(r.clipping == Clipping.NON_BASE)
+        rp = int(r.blend_mode == BlendMode.PASS_THROUGH)
+        if l.is_group():
+            blk = r.tagged_blocks.get(Tag.SECTION_DIVIDER_SETTING)
+            if blk is None:
+                st = 0
+            else:
+                bm = blk.data.blend_mode
+                st = 1 if bm is None else 2 if bm == BlendMode.PASS_THROUGH else 3
+            out.append(("N", lid(l), clip, st, rp, forest_of(l)))
+        else:
+            out.append(("L", lid(l), clip, rp))
+    return out
+
+
+def mode_index(psd):
+    from psd_tools.constants import CompatibilityMode as CM
+
+    return {CM.PHOTOSHOP: 0, CM.PAINT_TOOL_SAI: 1, CM.CLIP_STUDIO_PAINT: 2}[psd.compatibility_mode]
+
+
+def gen_edit_op(ck, st, nid):
+    """one valid operation for the current state (no aliasing: only detached top-level items are attached; no cycles)"""
+    rng = ck.rng
+    conts = st.containers()
+    roots = st.roots()
+    pm = st.parent_map()
+    placed = [l for l in st.reg.values() if id(l) in pm]
+    total = len(st.reg)
+    for _ in range(40):
+        k = rng.choice(["new_layer"] * 3 + ["new_group"] * 3 + ["append"] * 5 + ["extend"] * 3 + ["insert"] * 2 + ["setitem", "setslice"]
+                       + ["remove"] * 2 + ["pop", "clear", "delitem", "delslice"] + ["move_to_group"] * 6 + ["delete_layer"] * 2
+                       + ["move_up", "move_down"] + ["group_layers"] * 3 + ["set_clip"] * 2 + ["set_mode"])
+        c = rng.choice(conts)
+        cid = st.cid_of(c)
+        n = len(c._layers)
+        ok_roots = [x for x in roots if not st.inside(c, x)]
+        if k == "new_layer" and total < 40:
+            return ["new_layer", nid, rng.randint(0, 1), int(rng.random() < 0.55)]
+        if k == "new_group" and total < 40:
+            return ["new_group", nid, None if rng.random() < 0.6 else cid, rng.choice([2, 3]), int(rng.random() < 0.3)]
+        if k == "append" and ok_roots:
+            return ["append", cid, lid(rng.choice(ok_roots))]
+        if k == "extend" and ok_roots:
+            xs = rng.sample(ok_roots, rng.randint(1, min(3, len(ok_roots))))
+            return ["extend", cid, [lid(x) for x in xs]]
+        if k == "insert" and ok_roots:
+            return ["insert", cid, rng.randint(0, n), lid(rng.choice(ok_roots))]
+        if k == "setitem" and ok_roots and n:
+            return ["setitem", cid, rng.randrange(n), lid(rng.choice(ok_roots))]
+        if k == "setslice" and ok_roots and n:
+            i = rng.randrange(n)
+            xs = rng.sample(ok_roots, rng.randint(1, min(2, len(ok_roots))))
+            return ["setslice", cid, i, min(n, i + rng.randint(0, 2)), [lid(x) for x in xs]]
+        if k == "remove" and n:
+            return ["remove", cid, lid(rng.choice(c._layers))]
+        if k == "pop" and n:
+            return ["pop", cid, rng.choice([-1, rng.randrange(n)])]
+        if k == "clear" and n and rng.random() < 0.4:
+            return ["clear", cid]
+        if k == "delitem" and n:
+            return ["delitem", cid, rng.randrange(n)]
+        if k == "delslice" and n:
+            i = rng.randrange(n)
+            return ["delslice", cid, i, min(n, i + rng.randint(1, 2))]
+        if k == "move_to_group":
+            xs = [x for x in st.reg.values() if not st.inside(c, x) and not any(p is c for p in pm.get(id(x), []))]
+            # prefer bases that own clip layers, clipping layers and groups
+            pref = [x for x in xs if x._clip_layers or x.clipping_layer or x.is_group()]
+            if pref and rng.random() < 0.7:
+                xs = pref
+            if xs:
+                return ["move_to_group", lid(rng.choice(xs)), cid]
+        if k == "delete_layer" and placed:
+            return ["delete_layer", lid(rng.choice(placed))]
+        if k in ("move_up", "move_down") and placed:
+            return [k, lid(rng.choice(placed)), rng.randint(1, 3)]
+        if k == "group_layers":
+            if n and rng.random() < 0.7:
+                i = rng.randrange(n)
+                xs = c._layers[i:i + rng.randint(1, 3)]
+                tgt = [d for d in conts if not any(st.inside(d, x) for x in xs)]
+                pc = None if rng.random() < 0.6 or not tgt else st.cid_of(rng.choice(tgt))
+                return ["group_layers", nid, [lid(x) for x in xs], pc]
+            if roots:
+                xs = rng.sample(roots, rng.randint(1, min(2, len(roots))))
+                # detached items: name the parent explicitly (their old parent pointer is not to be relied upon)
+                tgt = [d for d in conts if not any(st.inside(d, x) for x in xs)]
+                if tgt:
+                    return ["group_layers", nid, [lid(x) for x in xs], st.cid_of(rng.choice(tgt))]
+        if k == "set_clip" and st.reg:
+            return ["set_clip", lid(rng.choice(list(st.reg.values()))), rng.randint(0, 1)]
+        if k == "set_mode":
+            return ["set_mode", rng.randint(0, 1), rng.randint(0, 2)]
+    return ["set_mode", 0, 0]
+
+
+# scripted openings that random walks then continue (kinds of membership change the property names)
+def scripted_histories():
+    base = [["L", 0, 0, 0], ["N", 1, 0, 3, 0, [["L", 2, 0, 0], ["L", 3, 1, 0], ["L", 4, 1, 0]]], ["N", 5, 0, 3, 0, [["L", 6, 0, 0]]], ["L", 7, 1, 0]]
+    other = [["L", 100, 0, 0], ["L", 101, 1, 0]]
+    for m in (0, 1):
+        init = [base, other, m, 0]
+        yield init, [["move_to_group", 2, 5]]                      # a base leaves its clip run behind
+        yield init, [["move_to_group", 3, 5]]                      # a clipping layer joins another base
+        yield init, [["move_to_group", 2, -2]]                     # ... across documents
+        yield init, [["move_to_group", 1, -2], ["move_to_group", 7, -2]]   # a group with inner runs changes document
+        yield init, [["new_group", 200, None, 3, 0], ["new_layer", 201, 0, 0], ["new_layer", 202, 0, 1],
+                     ["append", 200, 201], ["append", 200, 202], ["append", -1, 200]]    # assembled while detached
+        yield init, [["new_group", 200, None, 2, 0], ["new_layer", 201, 0, 0], ["new_layer", 202, 0, 1],
+                     ["extend", 200, [201, 202]], ["insert", 5, 0, 200]]
+        yield init, [["group_layers", 200, [2, 3], None]]          # a base and its clip layer are grouped
+        yield init, [["group_layers", 200, [0, 1], 5]]
+        yield init, [["new_group", 200, 1, 3, 1]]                  # Group.new(parent=...) with the flag
+        yield init, [["remove", 1, 2], ["append", 5, 2]]
+        yield init, [["pop", 1, 0]], 
+        yield init, [["delitem", 1, 0]]
+        yield init, [["delslice", -1, 0, 3]]
+        yield init, [["clear", 5], ["delete_layer", 0]]
+        yield init, [["new_layer", 201, 0, 0], ["setitem", 1, 0, 201]]
+        yield init, [["new_layer", 201, 0, 0], ["new_layer", 202, 0, 1], ["setslice", 1, 0, 1, [201, 202]]]
+
+
+def run_edit_stream(ck, edit_cases):
+    rng = ck.rng
+    thorough = ck.tier == "thorough"
+    nsteps = 0
+    api_forests = [jforest(number(r)) for r in itertools.islice(gen_api(ck), 30, 30 + (4000 if thorough else 330))]
+    jobs = []
+    for item in scripted_histories():
+        init, hist = item[0], item[1]
+        jobs.append((init, [list(o) for o in hist], rng.randint(3, 8)))
+    for fa in api_forests:
+        fb = rng.choice(api_forests)
+        fb = json.loads(json.dumps(fb))
+
+        def shift(f):
+            return [[t[0], t[1] + 1000] + list(t[2:5]) + [shift(t[5])] if t[0] == "N" else [t[0], t[1] + 1000] + list(t[2:]) for t in f]
+
+        jobs.append(([fa, shift(fb), rng.randint(0, 2), rng.randint(0, 2)], [], rng.randint(6, 14)))
+    for init, scripted, nrandom in jobs:
+        try:
+            st = EditState(init)
+        except Exception as e:  # noqa
+            ck.fail("edit-init-raises", {"route": "edit", "init": init, "history": []}, repr(e), "documents build")
+            continue
+        hist = []
+        nid = 5000
+        for step in range(len(scripted) + nrandom):
+            op = scripted[step] if step < len(scripted) else gen_edit_op(ck, st, nid)
+            if op[0] in ("new_layer", "new_group", "group_layers"):
+                nid = max(nid, op[1]) + 1
+            hist.append(op)
+            inp = {"route": "edit", "init": init, "history": [list(o) for o in hist]}
+            try:
+                st.execute(op)
+            except Exception as e:  # noqa
+                ck.fail("edit-raises", inp, repr(e), "the operation succeeds (operands are detached or valid targets)")
+                break
+            nsteps += 1
+            ck.count("edit:" + op[0])
+            for di, d in enumerate(st.docs):
+                inp_d = dict(inp, doc=di)
+                check_relation(ck, d, inp_d, [op], None)
+                edit_cases.append(((mode_index(d), forest_of(d)), ser_state(d)))
+        ck.nontriv(("edit", json.dumps(hist)))
+    ck.count("edit-histories", len(jobs))
+    ck.count("edit-steps", nsteps)
+
+
 # ------------------------------------------------------------------ the run
 def run():
     logging.disable(logging.CRITICAL)
@@ -446,6 +731,10 @@ def run():
                "variants; random forests to depth 8; documents built through the public API (PSDImage.new, Group.new, PixelLayer.frompil, "
                "append, setters) with the real compositor spied for its draw order; random operation sequences over "
                "{clipping_layer setter, compatibility_mode setter, move_down} checking the stored fields against the definition after every step; "
+               "membership edits through the public API on two documents plus detached layers/groups (append, extend, insert, item/slice "
+               "assignment, remove, pop, clear, del, move_to_group, delete_layer, move_up/down, Group.new(parent), group_layers, detached "
+               "assembly then attach, cross-document moves; scripted openings + random walks), definition checked on both documents after "
+               "every step; "
                "non-trivial = distinct forest with at least one clipping layer")
     if ck.coq_build(["theories/Tree/Corr.v", "theories/Properties/C15.v"]):
         ck.collect_theorems("C15.v")
@@ -527,18 +816,23 @@ def run():
             trace_cases.append(((f, ops), out))
     ck.count("observations-stale-after-move", nstale)
 
+    # ---- membership edits through the public API, two documents, detached assembly
+    edit_cases = []
+    run_edit_stream(ck, edit_cases)
+
     lit_open = lambda a: "(%d, %s)" % (a[0], lit_forest(a[1]))
     lit_trace = lambda a: "(%s, [%s])" % (lit_forest(a[0]), ";".join("(%d,%d,%d)" % tuple(o) for o in a[1]))
     for stream, fn, cases, lit in (("open", "c15_open", open_cases, lit_open), ("draw", "c15_draw", draw_cases, lit_open),
-                                   ("trace", "c15_trace", trace_cases, lit_trace)):
+                                   ("trace", "c15_trace", trace_cases, lit_trace), ("edit", "c15_edit", edit_cases, lit_open)):
         bad = ck.correspond(stream, fn, IMPORTS, cases, lit, chunk=800)
         for i in bad[:3]:
             ck.notes.append("model/implementation differ on %s case %d: %s -> impl %r" % (stream, i, lit(cases[i][0])[:300], cases[i][1][:80]))
     ck.assumptions += [
         "a layer is abstracted to (identity, clipping flag, blend_mode == PASS_THROUGH); pixels, masks, visibility, the viewport test and "
         "the skipping of adjustment layers in Compositor.apply are not modelled (draw-order cases use visible in-viewport pixel layers)",
-        "arbitrary edit histories (append/remove/insert/move_to_group...) belong to C09's model; here: the two setters and "
-        "move_down at the top level, all of which recompute (structural edits since /repo edc9f34)",
+        "what a structural mutator does to order/membership (aliasing, cycles, refused operations, parent pointers) is C09's model; here a "
+        "membership edit is 'the forest afterwards is given, the code recomputes' (Tree/Clip.v recompute); the harness never attaches a "
+        "layer that is still listed elsewhere",
         "changing a blend mode to/from PASS_THROUGH in SAI/CSP mode does not recompute either (not among the changes the property lists)",
     ]
     return ck.finish()
@@ -548,6 +842,17 @@ def replay(path):
     logging.disable(logging.CRITICAL)
     fl = json.load(open(path))
     inp = fl["input"]
+    if inp.get("route") == "edit":
+        st = EditState(inp["init"])
+        for op in inp["history"]:
+            print("op      :", op)
+            st.execute(op)
+        for di, d in enumerate(st.docs):
+            print("doc %d forest:" % di, lit_forest(forest_of(d)), "mode", mode_index(d))
+            print("  stored  :", names(d, observed_fields(d)))
+            print("  expected:", names(d, expected_fields(d)))
+        print("kind    :", fl["kind"], "| failing document:", inp.get("doc"))
+        return 1
     f = unj(inp["forest"])
     psd = build_api(f, True) if inp.get("route") == "api" else build_records(f)
     psd.compatibility_mode = _mode(inp.get("mode", 0))
